@@ -1934,13 +1934,15 @@ class C19(Spec):
             "through it, hard link, duplicate entry, size field larger than the data, empty dir), 70% truncated at a random byte offset "
             "or block boundary; each case: fetch the cut archive, retry with the intact one, then a reference unpack into a fresh "
             "directory; non-trivial = a hostile entry or a cut")
-    projection_doc = "(no model/implementation projection: the model is tied to the code by the translator's shape facts; the implementation is checked directly)"
+    projection_doc = ("for every uncut fetch of a case (the first attempt when the archive is intact, the retry from the tree the first "
+                      "attempt really left, the reference unpack): whether a directory is handed out, and the complete set of "
+                      "(path, content) files below cache/src, must equal the model's fetch on the same archive and starting tree")
     assumptions = ["tar 0.4 unpack_in behaves as specified", "the test runs on a local file system (no NFS)"]
     quick_n = 150
     thorough_n = 3000
 
     def model_modules_paths(self):
-        return ["Unpack"]
+        return ["ShowUnpack"]
 
     def gen_cases(self, rng, n):
         return [gen.gen_unpack_case(rng, f"u{i}") for i in range(n)]
@@ -1961,6 +1963,26 @@ class C19(Spec):
         dist = Counter()
         nontrivial = 0
         crate = "cache/src/foo-1.0.0/"
+        compared = 0
+        if model_ok:
+            exprs, expect = [], {}
+            for cid, o in obs.items():
+                if o["status"] == "ok":
+                    ex, want = self.model_steps(bycase[cid], o)
+                    exprs += ex
+                    expect.update(want)
+            model = vetlib.run_model(exprs, os.path.join(work, "model"), ["Base", "Extracted", "Show", "Unpack", "ShowUnpack"])
+            for eid, want in expect.items():
+                m = model.get(eid, "MODEL-ERROR: missing")
+                cid, k = eid.rsplit("#", 1)
+                if m.startswith("MODEL-ERROR"):
+                    res["mismatches"].append({"id": cid, "why": "model evaluation failed: " + m[:300], "case": bycase[cid]})
+                    continue
+                compared += 1
+                got = canon_unpack(m)
+                if got != want:
+                    res["mismatches"].append({"id": cid, "why": f"step {k}: the tree below cache/src after the real fetch_package differs from the model's",
+                                              "impl": json.dumps(want)[:600], "model": json.dumps(got)[:600], "case": bycase[cid]})
         for cid, o in obs.items():
             case = bycase[cid]
             if o["status"] != "ok":
@@ -2009,8 +2031,52 @@ class C19(Spec):
                                        "results": [s["result"][:50] for s in steps]})
         res["nontrivial"] = nontrivial
         res["stats"] = {"harness_status": dict(Counter(o["status"] for o in obs.values())),
-                        "results": {" / ".join(k): v for k, v in dist.items()}, "compared": 0}
+                        "results": {" / ".join(k): v for k, v in dist.items()}, "compared": compared}
         return res
+
+    def model_steps(self, case, o):
+        """the model is run on every UNCUT fetch of the case: step 0 when the archive is not truncated, the retry (step 1)
+        from the tree the first attempt really left, the reference unpack (step 2) from the tree without the crate's directory.
+        Entries whose header lies about the size are left to the direct oracle (what the stream then means is the tar
+        reader's business)."""
+        if any("size" in e for e in case["entries"]):
+            return [], {}
+        names, contents = {".cargo-ok": 0}, {"file:ok": 1}
+
+        def nid(c):
+            return names.setdefault(c, len(names) + 1)
+
+        def cid_of(v):
+            return contents.setdefault(v, len(contents) + 1)
+        pre = f"{case.get('name', 'foo')}-{case.get('version', '1.0.0')}"
+        prefix = nid(pre)
+        ar = []
+        for e in case["entries"]:
+            comps = [{"_c": "CParent", "a": []} if c == ".." else {"_c": "CNormal", "a": [nid(c)]}
+                     for c in e["path"].split("/") if c not in ("", ".")]
+            kind = {"file": "EFile", "dir": "EDir"}.get(e.get("kind", "file"), "ELink")
+            ar.append({"_c": "Build_entry", "a": [e["path"].startswith("/"), comps, {"_c": kind, "a": []},
+                                                  cid_of("file:" + e.get("content", "")[:40])]})
+
+        def fs_of(tree, drop_crate=False):
+            out = []
+            for path, v in sorted(tree.items()):
+                if path.startswith("cache/src/") and v.startswith("file:"):
+                    if drop_crate and path.startswith(f"cache/src/{pre}/"):
+                        continue
+                    out.append(([nid(c) for c in path[len("cache/src/"):].split("/")], cid_of(v)))
+            return out
+        steps = o["steps"]
+        starts = {1: fs_of(steps[0]["tree"]), 2: fs_of(steps[1]["tree"], drop_crate=True)}
+        if not case.get("truncate_at"):
+            starts[0] = fs_of(o["before"])
+        exprs, want = [], {}
+        for k, f0 in starts.items():
+            eid = f"{case['id']}#{k}"
+            exprs.append((eid, f"show_fetch {prefix}%N {coq(ar)} {coq([{'_pair': [p, c]} for p, c in f0])}"))
+            want[eid] = {"handed_out": steps[k]["result"] == "ok",
+                         "files": sorted([list(p), c] for p, c in fs_of(steps[k]["tree"]))}
+        return exprs, want
 
 
 import hist  # noqa: E402
@@ -2146,6 +2212,17 @@ class C13(HistorySpec):
     level_note = ("as C09; byte equality also depends on the TOML writer (C14).")
     design_ref = "DESIGN.md §4 C13"
     assumptions = C09.assumptions
+
+
+def canon_unpack(text):
+    e = vetlib.parse_sexp(text)
+    ho = vetlib.sexp_get(e, "handed_out")
+    files = vetlib.sexp_get(e, "files")
+    out = []
+    for f in files[1:]:
+        p = vetlib.sexp_get(f, "p")
+        out.append([[int(x) for x in p[1:]], int(f[2])])
+    return {"handed_out": ho[1] == "1", "files": sorted(out)}
 
 
 def canon_lock(text):
